@@ -1,10 +1,12 @@
 import C4E.Drv.Minter
 import C4E.Drv.Distr
+import C4E.Drv.Vest
 open C4E
 
 structure World where
   minter : C4E.Drv.Minter.W := {}
   distr : C4E.Drv.Distr.W := {}
+  vest : C4E.Drv.Vest.W := {}
   halted : Bool := false
 deriving Inhabited
 
@@ -19,6 +21,9 @@ def stepLine (w : World) (line : String) : World × String :=
     else if t.startsWith "m." then
       let (m, out) := C4E.Drv.Minter.step w.minter toks
       ({ w with minter := m, halted := out = "panic" && t = "m.block" }, out)
+    else if t.startsWith "v." then
+      let (v, out) := C4E.Drv.Vest.step w.vest toks
+      ({ w with vest := v }, out)
     else if t.startsWith "d." then
       let (d, out) := C4E.Drv.Distr.step w.distr toks
       ({ w with distr := d, halted := out = "panic" && t = "d.bb" }, out)
